@@ -51,12 +51,8 @@ pub struct EPSub {
 
 impl EPSub {
     pub fn parser<'a>() -> impl Parser<FrameStream<'a>, Output = EPSub> + 'a {
-        (
-            Selector::parser(),
-            optional(from_sequences()),
-            optional(window()),
-        )
-            .map(|(selector, from_sequences, window_size)| {
+        (Selector::parser(), clauses())
+            .map(|(selector, (from_sequences, window_size))| {
                 let matcher = match selector {
                     Selector::All => SubscriptionMatcher::AllPartitions {
                         from_sequences: from_sequences.unwrap_or(FromSequences::Latest),
@@ -132,6 +128,16 @@ fn from_sequences<'a>() -> impl Parser<FrameStream<'a>, Output = FromSequences> 
 
 fn window<'a>() -> impl Parser<FrameStream<'a>, Output = u64> + 'a {
     keyword("WINDOW").with(number_u64_min(1))
+}
+
+// [FROM ...] [WINDOW <size>], in either order
+fn clauses<'a>()
+-> impl Parser<FrameStream<'a>, Output = (Option<FromSequences>, Option<u64>)> + 'a {
+    optional(choice((
+        (from_sequences(), optional(window())).map(|(from, window)| (Some(from), window)),
+        (window(), optional(from_sequences())).map(|(window, from)| (from, Some(window))),
+    )))
+    .map(Option::unwrap_or_default)
 }
 
 impl HandleRequest for EPSub {
